@@ -96,15 +96,34 @@ def d2(chk, prog, ploidies):
 def par_key_label(chk, prog):
     """the summary parx_filter|->PAR-X class is backed by this: each PAR filter compares the chromosome with the label of its
     own sex chromosome and reads PSEUDO_AUTSOMAL_REGIONS keys ending in that letter, with start >= / end <= region bounds"""
-    for meth, letter, label_prop in (("parx_filter", "X", "chr_x_label"), ("pary_filter", "Y", "chr_y_label")):
+    # interpreted on literal bins placed around every boundary of the PAR table, for each genome build: a bin is PAR-X (PAR-Y) iff it lies on X (Y)
+    # and wholly inside PAR1 or PAR2 of that chromosome's own entry (an earlier version matched the key strings in the source)
+    tblv = ast.literal_eval(prog.module("cnvlib.params").assigns["PSEUDO_AUTSOMAL_REGIONS"])
+    for meth, letter in (("parx_filter", "X"), ("pary_filter", "Y")):
         fi = prog.fn(f"cnvlib.cnary.CopyNumArray.{meth}")
-        keys = [n.value for n in ast.walk(fi.node) if isinstance(n, ast.Constant) and isinstance(n.value, str) and n.value.startswith("PAR")]
-        labels = {n.attr for n in ast.walk(fi.node) if isinstance(n, ast.Attribute) and n.attr in ("chr_x_label", "chr_y_label")}
-        if not keys:
-            raise AnalysisError(f"{fi.qn}: PAR keys vanished")
-        ok = all(k.endswith(letter) for k in keys) and labels == {label_prop} and {k[:-1] for k in keys} == {"PAR1", "PAR2"}
-        chk.decide(ok, "par-key-label", f"{meth}: keys {sorted(set(keys))} / label {sorted(labels)}", f"{fi.qn}::PAR keys", fi.loc(),
-                   f"{meth} must read PAR1{letter}/PAR2{letter} and compare with {label_prop}; reads {sorted(set(keys))} with {sorted(labels)}")
+        tb = Table(chk, "par-key-label", f"{meth} on literal bins around the PAR1 / PAR2 boundaries of chr{letter} (and the same coordinates on the other sex chromosome and an autosome), per genome build and naming", fi.loc(), fi.qn + "::intervals")
+        for build, style in itertools.product(sorted(tblv), ("chr", "")):
+            W.reset()
+            regs = [tuple(tblv[build][f"PAR1{letter}"]), tuple(tblv[build][f"PAR2{letter}"])]
+            other = [tuple(tblv[build][f"PAR1{'Y' if letter == 'X' else 'X'}"]), tuple(tblv[build][f"PAR2{'Y' if letter == 'X' else 'X'}"])]
+            spans = []
+            for a, b in regs + other:
+                mid = (a + b) // 2
+                spans += [(a - 2000, a - 1000), (a - 500, a + 500), (a, a + 1000), (mid, mid + 1000), (b - 1000, b), (b - 500, b + 500), (b, b + 1000), (a - 1000, b + 1000)]
+            rows, want = [], []
+            for c in (letter, "Y" if letter == "X" else "X", "1"):
+                for a, b in spans:
+                    rows.append(dict(chromosome=style + c, start=a, end=b, gene="g", log2=0))
+                    want.append(c == letter and any(a >= ra and b <= rb for ra, rb in regs))
+            g = make_ga("CopyNumArray", rows, {"sample_id": "S"}, index="any", exact=True)
+            it = Interp(prog)
+            out = tb.guard(lambda: it.run_method(g, meth, [build.upper() if style else build]), f"{build} naming={style or 'bare'}")
+            if out is None:
+                continue
+            got = list(out.v) if isinstance(out, Vec) else None
+            bad = [(rows[i]["chromosome"], rows[i]["start"], rows[i]["end"], got[i], want[i]) for i in range(len(rows)) if got is not None and got[i] is not want[i]] if got is not None and len(got) == len(want) else "wrong shape"
+            tb.cell(bad == [], dict(genome=build, naming=style or "bare", regions=regs, mismatches=bad[:6] if isinstance(bad, list) else bad))
+        tb.done(f"{meth} does not flag exactly the chr{letter} bins lying wholly inside PAR1 / PAR2 of chr{letter} (own table entry, both bounds)")
     # the table itself: every genome build defines the four keys, start < end
     params = prog.module("cnvlib.params")
     tblexpr = params.assigns.get("PSEUDO_AUTSOMAL_REGIONS")
